@@ -366,6 +366,7 @@ func runPlan(c *pbt.Case, p Plan) {
 		if p.Client == "lfsc" {
 			u, _ := url.Parse(ts.URL)
 			bc := lfsc.NewBackupClient(s, *u)
+			bc.HTTPClient = &http.Client{Transport: &http.Transport{DialContext: cluster.NoLingerDial}}
 			_ = bc.Open()
 			sv.inner = bc
 		} else {
